@@ -160,6 +160,7 @@ def terminates : List (String × String × String) := [
   ("taskfile/ast:NewTasks", "nocycle", "same"),
   ("taskfile/ast:Vars.Set", "nocycle", "same pattern: NewVars() without elements"),
   ("taskfile/ast:NewVars", "nocycle", "same"),
+  ("taskfile:Reader.firstError", "visited", "`seen[location]` is set on entry and an include whose location is in `seen` is skipped before the recursive call; a location on the current stack is a cycle error"),
   ("taskfile:Reader.include", "visited", "a vertex is added to the graph before its includes are read; AddVertex of a known hash returns ErrVertexAlreadyExists and the function returns; an edge that would close a cycle is refused (ErrEdgeCreatesCycle → TaskfileCycleError, C08_cycle)")]
 
 def boundClasses : List String := ["visited", "counter", "structural", "nocycle"]
